@@ -880,7 +880,16 @@ impl ContinuityStore {
         };
 
         let workspace = workspace_key(&self.workspace_root);
-        let thread_id = self.create_continuity(workspace, None, title, false)?;
+        // The seq mutex is held from before the child becomes listable until its counter is set:
+        // a concurrent append to the new thread must not choose a seq before the lineage frame
+        // (seq 1) is in the log.
+        #[cfg(rip_verif)]
+        rip_kernel::verif::point("cont.before_lock");
+        let mut next_seq = self.next_seq.lock().expect("continuity seq mutex");
+        #[cfg(rip_verif)]
+        rip_kernel::verif::point("cont.locked");
+        let thread_id =
+            self.create_continuity_locked(&mut next_seq, workspace, None, title, false)?;
 
         let event = Event {
             id: Uuid::new_v4().to_string(),
@@ -909,10 +918,7 @@ impl ContinuityStore {
 
         #[cfg(rip_verif)]
         rip_kernel::verif::point("cont.before_setnext");
-        self.next_seq
-            .lock()
-            .expect("continuity seq mutex")
-            .insert(thread_id.clone(), 2);
+        next_seq.insert(thread_id.clone(), 2);
         #[cfg(rip_verif)]
         rip_kernel::verif::point("cont.setnext");
 
@@ -1000,7 +1006,14 @@ impl ContinuityStore {
         };
 
         let workspace = workspace_key(&self.workspace_root);
-        let thread_id = self.create_continuity(workspace, None, title, false)?;
+        // See branch(): the seq mutex covers child creation, the lineage frame and the counter.
+        #[cfg(rip_verif)]
+        rip_kernel::verif::point("cont.before_lock");
+        let mut next_seq = self.next_seq.lock().expect("continuity seq mutex");
+        #[cfg(rip_verif)]
+        rip_kernel::verif::point("cont.locked");
+        let thread_id =
+            self.create_continuity_locked(&mut next_seq, workspace, None, title, false)?;
 
         if summary_artifact_id.is_none() {
             if let Some(markdown) = summary_markdown.as_ref() {
@@ -1046,10 +1059,7 @@ impl ContinuityStore {
 
         #[cfg(rip_verif)]
         rip_kernel::verif::point("cont.before_setnext");
-        self.next_seq
-            .lock()
-            .expect("continuity seq mutex")
-            .insert(thread_id.clone(), 2);
+        next_seq.insert(thread_id.clone(), 2);
         #[cfg(rip_verif)]
         rip_kernel::verif::point("cont.setnext");
 
@@ -3709,6 +3719,31 @@ impl ContinuityStore {
         title: Option<String>,
         set_as_default: bool,
     ) -> Result<String, String> {
+        #[cfg(rip_verif)]
+        rip_kernel::verif::point("cont.before_lock");
+        let mut next_seq = self.next_seq.lock().expect("continuity seq mutex");
+        #[cfg(rip_verif)]
+        rip_kernel::verif::point("cont.locked");
+        self.create_continuity_locked(
+            &mut next_seq,
+            workspace,
+            continuity_id,
+            title,
+            set_as_default,
+        )
+    }
+
+    /// Writes the new thread's seq-0 frame, makes the thread listable and sets its counter to 1.
+    /// The caller holds the seq mutex (`next_seq` is its guard) and keeps it while it writes further
+    /// fixed-seq frames of the new thread, so no other writer can choose a seq on it in between.
+    fn create_continuity_locked(
+        &self,
+        next_seq: &mut HashMap<String, u64>,
+        workspace: String,
+        continuity_id: Option<String>,
+        title: Option<String>,
+        set_as_default: bool,
+    ) -> Result<String, String> {
         let continuity_id = continuity_id.unwrap_or_else(|| Uuid::new_v4().to_string());
         let timestamp_ms = now_ms();
         let created = Event {
@@ -3754,10 +3789,7 @@ impl ContinuityStore {
 
         #[cfg(rip_verif)]
         rip_kernel::verif::point("cont.before_setnext");
-        self.next_seq
-            .lock()
-            .expect("continuity seq mutex")
-            .insert(continuity_id.clone(), 1);
+        next_seq.insert(continuity_id.clone(), 1);
         #[cfg(rip_verif)]
         rip_kernel::verif::point("cont.setnext");
 
